@@ -48,6 +48,15 @@ Definition ftouch_unit_ab (n : Z) (r ab : b64) : bool :=
   else let rad := fmul nd r in fge (fadd rad fone) ab && fge (fadd rad ab) fone.
 Definition ftouch_unit (n : Z) (r re im : b64) : bool := ftouch_unit_ab n r (cplx_mod_f re im).
 
+(* mps_ftouchunit after fixes/C08_funit_allowance.patch:  rad = n * frad; ab = cplx_mod (z);
+   rad += 8 * DBL_EPSILON * (ab + 1);  return (rad + 1 >= ab) && (rad + ab >= 1);   (8 * DBL_EPSILON = 2^-49 = 16 u) *)
+Definition f_allow : b64 := @B754_finite 53 1024 false 4503599627370496 (-101) eq_refl.
+Definition ftouch_unit_ab_fixed (n : Z) (r ab : b64) : bool :=
+  let nd := f_of_Z n in
+  if fge r (fdiv DBL_MAX nd) then true
+  else let rad := fadd (fmul nd r) (fmul f_allow (fadd ab fone)) in fge (fadd rad fone) ab && fge (fadd rad ab) fone.
+Definition ftouch_unit_fixed (n : Z) (r re im : b64) : bool := ftouch_unit_ab_fixed n r (cplx_mod_f re im).
+
 Definition f_obs (n : Z) (re im r : b64) (small : bool) : obs :=
   let ab := cplx_mod_f re im in
   mkObs (ftouch_unit (2 * n) r re im) (ftouch_axis (2 * n) r re) (ftouch_axis (2 * n) r im)
@@ -62,6 +71,14 @@ Definition dtouch_axis (n : Z) (r c : rdpe) : bool := rdpe_ge (rdpe_mul_d r (f_o
 Definition dtouch_unit (n : Z) (r : rdpe) (z : cdpe) : bool :=
   let ab := cdpe_mod z in
   let rad := rdpe_mul_d r (f_of_Z n) in
+  if rdpe_lt (rdpe_add_d rad fone) ab then false else rdpe_ge (rdpe_add rad ab) rdpe_one.
+
+(* mps_dtouchunit after fixes/C08_dunit_allowance.patch:  cdpe_mod (ab, z); rdpe_mul_d (rad, drad, n);
+   rdpe_add_d (eps, ab, 1.0); rdpe_mul_eq_d (eps, 8 * DBL_EPSILON); rdpe_add_eq (rad, eps);  then as before *)
+Definition dtouch_unit_fixed (n : Z) (r : rdpe) (z : cdpe) : bool :=
+  let ab := cdpe_mod z in
+  let eps := rdpe_mul_d (rdpe_add_d ab fone) f_allow in
+  let rad := rdpe_add_eq (rdpe_mul_d r (f_of_Z n)) eps in
   if rdpe_lt (rdpe_add_d rad fone) ab then false else rdpe_ge (rdpe_add rad ab) rdpe_one.
 
 Definition d_obs (n : Z) (z : cdpe) (r : rdpe) (small : bool) : obs :=
@@ -101,6 +118,15 @@ Definition m_obs (n : Z) (xm xe ym ye : Z) (r : rdpe) (t_unit_in in_unit_in in_c
         (mtouch_axis 1 r ym ye) (mtouch_axis 1 r xm xe) (mtouch_axis n r ym ye) (mtouch_axis n r xm xe)
         in_unit_in in_compl_in
         (rdpe_le re rdpe_zero) (rdpe_ge re rdpe_zero) (rdpe_le im rdpe_zero) (rdpe_ge im rdpe_zero) small.
+
+(* the same records with the unit-circle outcome of the repaired tests (trees with the allowance patches applied) *)
+Definition with_unit (o : obs) (t : bool) : obs :=
+  mkObs t (t_imag o) (t_real o) (t_real1 o) (t_imag1 o) (t_realn o) (t_imagn o)
+        (in_unit o) (in_compl o) (re_neg o) (re_pos o) (im_neg o) (im_pos o) (small o).
+Definition f_obs_fixed (n : Z) (re im r : b64) (small : bool) : obs :=
+  with_unit (f_obs n re im r small) (ftouch_unit_fixed (2 * n) r re im).
+Definition d_obs_fixed (n : Z) (z : cdpe) (r : rdpe) (small : bool) : obs :=
+  with_unit (d_obs n z r small) (dtouch_unit_fixed (2 * n) r z).
 
 (* ---------------------------------------------------------------- the whole pass over a state
    one root of the exchange format: outcomes for update_inclusions, outcomes for detect_properties (they differ in
